@@ -8,6 +8,7 @@ mod checks2;
 mod checks3;
 mod cli;
 mod progs;
+mod examples;
 mod exec;
 mod forms;
 mod gen;
